@@ -357,7 +357,21 @@ def gen_case(rng, additive_only=False):
             prog = gen_op(not additive_only)
     else:
         prog = ["try", ["block", [gen_prog(1, removal_ok) for _ in range(rng.choice([2, 3]))] + [["fail"]]]]
-    return {"pre": pre, "prog": prog}
+    return {"pre": pre, "prog": _no_caught_expand(prog)}
+
+
+def _no_caught_expand(p):
+    """`try: expandDataId(...)` on a Butler whose dimension record cache is still empty: a natural fault at one of the cache-loading
+    SELECTs is caught by the program, which then completes -- a fault position the model does not have (Expand has no boundary:
+    design.d/C07.md, limits; confirmed by replaying block[try expand 1; put 0 1]).  Like the lone top-level expand, the caught
+    expand is therefore not generated: the `try` is dropped (no random number is consumed, every other program of every seed stays
+    what it was); expand stays exercised uncaught inside blocks and inside caught BLOCKS."""
+    if p[0] == "try":
+        q = _no_caught_expand(p[1])
+        return q if (q[0] == "op" and q[1] == "expand") else ["try", q]
+    if p[0] == "block":
+        return ["block", [_no_caught_expand(q) for q in p[1]]]
+    return p
 
 
 # =================================================================================================
